@@ -119,3 +119,36 @@ Definition magnitudes_of (pts : list Z) (lbs ubs : list ereal) (ms : list Q) : m
       if rel_finite pts' lbs ubs then MagOk (magnitudes_vec pts' lbs ubs ms') else MagInfinite
   | _, _ => MagShape
   end.
+
+(* ---- a VariableScaler in force (user = optimizer * scale + offset, scale > 0) -------------------- *)
+(* VariablesConfig stores initial values and bounds in the optimizer domain: to_optimizer = (v - offset) / scale;
+   GradientConfig.fix_perturbations then takes RELATIVE magnitudes from those transformed bounds and divides
+   ABSOLUTE magnitudes by the scale (VariableScaler.magnitudes_to_optimizer) *)
+Definition to_opt1 (s o x : Q) : Q := (x - o) / s.
+Definition from_opt1 (s o x : Q) : Q := x * s + o.
+Definition eb_to_opt (s o : Q) (b : ereal) : ereal := match b with Fin q => Fin (to_opt1 s o q) | e => e end.
+Fixpoint map3 {A B C D} (f : A -> B -> C -> D) (a : list A) (b : list B) (c : list C) : list D :=
+  match a, b, c with x :: a', y :: b', z :: c' => f x y z :: map3 f a' b' c' | _, _, _ => [] end.
+Definition vec_to_opt (ss os x : list Q) : list Q := map3 to_opt1 ss os x.
+Definition vec_from_opt (ss os x : list Q) : list Q := map3 from_opt1 ss os x.
+Definition bounds_to_opt (ss os : list Q) (bs : list ereal) : list ereal := map3 eb_to_opt ss os bs.
+Definition magnitude_1s (p : Z) (lb ub : ereal) (s m : Q) : Q :=     (* lb, ub: optimizer domain *)
+  if Z.eqb p pt_relative
+  then match lb, ub with Fin l, Fin u => (u - l) * m | _, _ => m end
+  else m / s.
+Fixpoint magnitudes_vec_s (pts : list Z) (lbs ubs : list ereal) (ss ms : list Q) : list Q :=
+  match pts, lbs, ubs, ss, ms with
+  | p :: pts', l :: lbs', u :: ubs', s :: ss', m :: ms' =>
+      magnitude_1s p l u s m :: magnitudes_vec_s pts' lbs' ubs' ss' ms'
+  | _, _, _, _, _ => []
+  end.
+(* the whole of fix_perturbations for user-domain bounds [lbs]/[ubs] and a scaler [ss]/[os] *)
+Definition magnitudes_scaled (pts : list Z) (lbs ubs : list ereal) (ss os ms : list Q) : mag_result :=
+  let n := List.length lbs in
+  let lbs' := bounds_to_opt ss os lbs in
+  let ubs' := bounds_to_opt ss os ubs in
+  match broadcast n ms, broadcast n pts with
+  | Some ms', Some pts' =>
+      if rel_finite pts' lbs' ubs' then MagOk (magnitudes_vec_s pts' lbs' ubs' ss ms') else MagInfinite
+  | _, _ => MagShape
+  end.
